@@ -21,7 +21,8 @@
  * remove = removal of an arbitrary absent key, position symbolic.
  *
  * compile-time parameters (runner): TT 0=BST 1=RB 2=AVL, H, OP (insert/remove/lookup/foreach/clear), PPOS, HIT, REMCASE,
- *   NEWMODE 0=p_tree_new 1=p_tree_new_with_data 2=p_tree_new_full(+notifiers),
+ *   NEWMODE 0=p_tree_new 1=p_tree_new_with_data, p_tree_new_full with 2=both notifiers 3=key notifier only 4=value notifier only
+ *   5=symbolic choice; NULLTOK (which key / value token is the NULL pointer), ALLOC_FAIL (the node allocation of the insert fails),
  *   CMP_MAG n (comparator returns -n/0/n) or SYM_MAG (symbolic magnitude), FIXA(i) (optional: fixed colour / balance factor
  *   of chosen positions), CHK_LOOKUP_BEFORE / CHK_LOOKUP_AFTER (lookup of an arbitrary key before / after the step), FREE_AFTER (p_tree_free after the
  *   step + exactly-once accounting), CHK_MAP / CHK_BAL / CHK_OWN assertion groups (C12 / C13 / C14). */
@@ -167,25 +168,44 @@ static void check_notifier_counts(int leave_rank, int leave_id, int after_free) 
   for (r = 1; r <= NK; r++)
     for (id = 1; id <= 2; id++) {
       int stored_ever = (id == ID_OLD) ? ((r % 2 == 0) && pres[sk_pos(r / 2)]) : 0;
-#if OP == OP_INSERT
+#if OP == OP_INSERT && !defined(ALLOC_FAIL)
       if (id == ID_NEW && r == op_rank) stored_ever = 1;
 #endif
       int leaves_now = (r == leave_rank && id == leave_id);
 #if OP == OP_CLEAR
       leaves_now = stored_ever;
 #endif
-#if NEWMODE == 2
-      VASSERT(kd[0][r][id] == (leaves_now ? 1 : 0), "key notifier during the operation: exactly the key that leaves the tree, once");
-      VASSERT(vd[0][r][id] == (leaves_now ? 1 : 0), "value notifier during the operation: exactly the value that leaves the tree, once");
-      if (after_free) {
-        VASSERT(kd[0][r][id] + kd[1][r][id] == (stored_ever ? 1 : 0), "every key ever stored is destroyed exactly once overall");
-        VASSERT(vd[0][r][id] + vd[1][r][id] == (stored_ever ? 1 : 0), "every value ever stored is destroyed exactly once overall");
-      }
-#else
-      VASSERT(kd[0][r][id] + kd[1][r][id] + vd[0][r][id] + vd[1][r][id] == 0, "no notifiers given: none called");
-      (void) leaves_now; (void) stored_ever; (void) after_free;
-#endif
+      /* per configured notifier: exactly-once accounting; an unconfigured side is never called (and, being integer tokens,
+       * never touched: any access would be a pointer violation) */
+      if (has_kn) {
+        VASSERT(kd[0][r][id] == (leaves_now ? 1 : 0), "key notifier during the operation: exactly the key that leaves the tree, once");
+        if (after_free) VASSERT(kd[0][r][id] + kd[1][r][id] == (stored_ever ? 1 : 0), "every key ever stored is destroyed exactly once overall");
+      } else
+        VASSERT(kd[0][r][id] + kd[1][r][id] == 0, "no key notifier given: none called");
+      if (has_vn) {
+        VASSERT(vd[0][r][id] == (leaves_now ? 1 : 0), "value notifier during the operation: exactly the value that leaves the tree, once");
+        if (after_free) VASSERT(vd[0][r][id] + vd[1][r][id] == (stored_ever ? 1 : 0), "every value ever stored is destroyed exactly once overall");
+      } else
+        VASSERT(vd[0][r][id] + vd[1][r][id] == 0, "no value notifier given: none called");
     }
+}
+
+/* the tree is pointer-for-pointer and field-for-field the pre-state (failed / no-op calls) */
+static void check_unchanged(PTreeBaseNode *oldroot) {
+  int i;
+  VASSERT(tree->root == oldroot && tree->nnodes == pre_n, "no-op call: root and count unchanged");
+  for (i = 1; i <= N; i++) if (pres[i]) {
+    VASSERT(B(nd[i])->left == (pres[2 * i] ? B(nd[2 * i]) : NULL) && B(nd[i])->right == (pres[2 * i + 1] ? B(nd[2 * i + 1]) : NULL),
+            "no-op call: every link unchanged");
+    VASSERT(B(nd[i])->key == KEY(2 * sk_inorder(i), ID_OLD) && B(nd[i])->value == VAL(2 * sk_inorder(i), ID_OLD), "no-op call: every pair unchanged");
+#if TT == 1
+    VASSERT(nd[i]->parent == (i > 1 ? nd[i / 2] : NULL) && (int) nd[i]->color == colr[i], "no-op call: parent links and colours unchanged");
+#elif TT == 2
+    VASSERT(nd[i]->parent == (i > 1 ? nd[i / 2] : NULL) && nd[i]->balance_factor == ht[2 * i] - ht[2 * i + 1], "no-op call: parent links and balance factors unchanged");
+#endif
+  }
+  VASSERT(vm_live == pre_n + 1, "no-op call: nothing allocated or released");
+  VASSERT(nd_calls == 0, "no-op call: no destroy notifier called");
 }
 
 /* ---- foreach callback ---------------------------------------------------------------------------- */
@@ -207,6 +227,18 @@ static pboolean fe_cb(ppointer key, ppointer value, ppointer ud) {
 
 void harness(void) {
   int i;
+#ifdef NULLTOK
+  /* one key token and one value token are the NULL pointer:
+   * 1: the pre-state pair at the operation rank (the pair that is removed / replaced), 2: the pair given to the operation,
+   * 3: the key of the root position and the value of its left child (lookup / foreach / clear) */
+#if NULLTOK == 1
+  zk_rank = zv_rank = KPOS; zk_id = zv_id = ID_OLD;
+#elif NULLTOK == 2
+  zk_rank = zv_rank = KPOS; zk_id = zv_id = ID_NEW;
+#else
+  zk_rank = 2 * sk_inorder(1); zv_rank = 2 * sk_inorder(2); zk_id = zv_id = ID_OLD;
+#endif
+#endif
   make_tree();
   build_pre_state();
   tree->root = pres[1] ? B(nd[1]) : NULL;
@@ -245,7 +277,20 @@ void harness(void) {
   }
 #endif
 
-#if OP == OP_INSERT
+#if OP == OP_INSERT && defined(ALLOC_FAIL)
+  /* the node allocation of an insert of a NEW key fails: p_tree_insert has no result, but the tree must be exactly the
+   * pre-state (in particular still valid), the count unchanged, no notifier called (the caller keeps the pair) */
+  VASSERT(!was, "harness: allocation failure is about inserts of a new key");
+  fail_node_alloc = 1;
+  p_tree_insert(tree, KEY(kpos, ID_NEW), VAL(kpos, ID_NEW));
+  fail_node_alloc = 0;
+  VASSERT(failed_allocs == 1, "insert of a new key asks for exactly one node");
+  check_unchanged(oldroot);
+  check_post_state();
+#ifdef CHK_OWN
+  check_notifier_counts(0, 0, 0);
+#endif
+#elif OP == OP_INSERT
   p_tree_insert(tree, KEY(kpos, ID_NEW), VAL(kpos, ID_NEW));
   exp_pres[kpos] = 1; exp_key[kpos] = KEY(kpos, ID_NEW); exp_val[kpos] = VAL(kpos, ID_NEW);
   exp_n = pre_n + (was ? 0 : 1);
@@ -254,10 +299,14 @@ void harness(void) {
   check_notifier_counts(was ? kpos : 0, ID_OLD, 0);
 #endif
 #elif OP == OP_REMOVE
-#if defined(KF_OPEN_C14_two_child_remove) && NEWMODE == 2 && defined(PPOS)
+#if defined(KF_OPEN_C14_two_child_remove) && NEWMODE >= 2 && defined(PPOS)
   VASSUME(!twoch);   /* open finding: removal of a node with two children destroys the wrong pair */
 #endif
+#ifdef NULLTOK
+  pboolean ret = p_tree_remove(tree, KEY(kpos, ID_OLD));     /* by the stored key object itself (the NULL pointer when NULLTOK == 1) */
+#else
   pboolean ret = p_tree_remove(tree, KEY(kpos, ID_PROBE));
+#endif
   VASSERT(ret == (was ? TRUE : FALSE), "remove returns TRUE iff the key was stored");
   if (was) { exp_pres[kpos] = 0; exp_n = pre_n - 1; }
   check_post_state();
@@ -292,12 +341,15 @@ void harness(void) {
 #endif
 #endif
   VWITNESS("step done");
+  witness_notifier_config();
 #if !defined(PPOS)
   if (pre_n == N) VWITNESS("operation on the full skeleton");
   if (kpos == 2) VWITNESS("operation key is the smallest skeleton rank");
 #elif OP == OP_INSERT
 #if HIT
   VWITNESS("replace of a stored key");
+#elif defined(ALLOC_FAIL)
+  VWITNESS("insert of a new key whose node allocation fails");
 #else
   VWITNESS("insert of a new key");
 #endif
@@ -326,8 +378,9 @@ void harness(void) {
 #else
     int q = ND_RANGE(1, NK);
 #endif
+    int qid = ND_RANGE(ID_OLD, ID_PROBE);     /* by the stored key object itself (possibly the NULL pointer) or by an equal key */
     cmp_calls = 0;
-    ppointer got = p_tree_lookup(tree, KEY(q, ID_PROBE));
+    ppointer got = p_tree_lookup(tree, KEY(q, qid));
     VASSERT(got == (exp_pres[q] ? exp_val[q] : NULL), "lookup = reference map value or NULL");
     VASSERT(cmp_calls <= ht[1], "lookup compares against at most height-many keys");
 #if defined(CHK_BAL) && TT == 2
@@ -359,6 +412,7 @@ void harness(void) {
   VASSERT(vm_live == pre_n + 1, "foreach allocates/frees nothing");
   VASSERT(nd_calls == 0, "foreach calls no destroy notifier");
   VWITNESS("foreach done");
+  witness_notifier_config();
   if (fe_stopped && fe_n < pre_n) VWITNESS("foreach stopped early");
   if (fe_stopped && fe_n < pre_n && fe_n >= 2) VWITNESS("foreach stopped early after >= 2 visits");
   if (!fe_stopped && pre_n == N) VWITNESS("foreach ran over the full skeleton");
@@ -377,8 +431,9 @@ void harness(void) {
   phase = 1;
   p_tree_free(tree);
   VASSERT(vm_live == 0, "free after clear releases the tree object");
-  VASSERT(nd_calls == (NEWMODE == 2 ? 2 * pre_n : 0), "free after clear calls no further notifier");
+  VASSERT(nd_calls == ((has_kn ? 1 : 0) + (has_vn ? 1 : 0)) * pre_n, "free after clear calls no further notifier");
   VWITNESS("clear done");
+  witness_notifier_config();
   if (pre_n == N) VWITNESS("clear of the full skeleton");
   if (pre_n == 0) VWITNESS("clear of the empty tree");
 #endif
